@@ -12,7 +12,7 @@ import json
 import random
 import re
 
-from . import core, scriptgen
+from . import convtrace, core, scriptgen
 
 LEVEL = "model_checking"
 
@@ -110,6 +110,9 @@ def run(ctx: core.Ctx):
             for kind, msrc in near_misses(scriptgen.program_src(s["prog"], list(s["ret"]), 0), rng)[: (2 if ctx.quick else 8)]:
                 cases.append((len(cases), msrc, kind))
                 meta.append({"src": msrc, "kind": kind, "model_refused": True, "attr": uses_attr})
+    # direction B: recorded converter traces (repository programs, repository tests, derived programs) validated by
+    # TLC against Converter.tla; this check owns the structural clauses (names, scopes, definitions, outputs)
+    convtrace.stage(ctx, [m["src"] for m in meta if m["kind"] == "program"][:1500 if ctx.quick else 6000], "C02")
     results = core.pmap_safe(run_case, cases, timeout=60)
     items = []
     for r in results:
